@@ -69,7 +69,8 @@ class InMemoryFederatedData(federated_data.FederatedData):
         self._client_ids[0]].keys()) if self._client_ids else []
     for client_id in self._client_ids:
       dataset = self._client_to_data_mapping[client_id]
-      if list(dataset.keys()) != self._features:
+      # Feature order inside a client's mapping carries no meaning.
+      if sorted(dataset.keys()) != sorted(self._features):
         raise ValueError(
             f'Inconsistent features, got {list(dataset.keys())} for client {client_id}, expect {self._features}'
         )
